@@ -7,7 +7,7 @@ class C06(Spec):
     harness = "h_c06"
     required_theorems = ("C06.prefixUpper_spec", "C06.read_your_write", "C06.batch_in_order", "C06.iter_forward",
                          "C06.iter_reverse", "C06.seek_lands_forward", "C06.seek_lands_reverse", "C06.badger_iter_forward", "C06.badger_iter_reverse",
-                         "C06.badger_iter_eq_leveldb")
+                         "C06.badger_iter_eq_leveldb", "C06.badger_session_eq_leveldb")
     level_text = ("Lean theorems about the ordered-map + iterator model (prefix upper bound, read-your-write, batch order, "
                   "iterator visits exactly the in-range keys in order, seek landing) for all inputs; the model is tied to "
                   "GoMemDB / GoLevelDB / GoBadgerDB by a line-by-line differential run (every Get, every iterator call: "
